@@ -83,6 +83,8 @@ class FakeGrpc:
 
     @staticmethod
     def insecure_channel(target, options=None, compression=None):
+        if SERVICE is not None and getattr(SERVICE, "on_channel", None) is not None:
+            SERVICE.on_channel()        # creating a channel takes a while: what other threads do meanwhile
         ch = FakeChannel(target, False, None, options)
         if SERVICE is not None:
             SERVICE.channels.append(ch)
